@@ -193,7 +193,18 @@ def run(ctx):
                         hops += 1
                 construct = f"{ast.unparse(n)} (index {kind})"
                 if kind == "loop-counter":
-                    ctx.ob("R1.index-classified", KT, qual, construct, True, nontrivial=False)
+                    ok_lc = True
+                    why_lc = ""
+                    if (base or "").endswith("ptr_array"):
+                        # a counter that indexes a pointer array runs over exactly the length of a pointer array of the table(s)
+                        d_lc = reaching_def(f, _parents(f), n, name_ix)
+                        it_ = d_lc[2].iter if d_lc is not None else None
+                        ok_lc = isinstance(it_, ast.Call) and call_name(it_) == "range" and len(it_.args) == 1 and not it_.keywords \
+                            and isinstance(it_.args[0], ast.Subscript) and isinstance(it_.args[0].value, ast.Attribute) \
+                            and it_.args[0].value.attr == "shape" and (dotted(it_.args[0].value.value) or "").endswith("ptr_array") \
+                            and isinstance(it_.args[0].slice, ast.Constant) and it_.args[0].slice.value == 0
+                        why_lc = f"the counter `{name_ix}` runs over `{ast.unparse(it_) if it_ is not None else '?'}`, not over range(<pointer array>.shape[0])"
+                    ctx.ob("R1.index-classified", KT, qual, construct, ok_lc, why_lc, n.lineno, nontrivial=False)
                 elif kind == "produced-by-create_kmers":
                     ctx.ob("R1.index-classified", KT, qual, construct, True, nontrivial=False)
                 elif kind == "rule-provided":
@@ -361,6 +372,7 @@ def run(ctx):
 
 
 MUTANTS = [
+    Mutant("get-kmers-counter-one-too-far", KT, "        for kmer in range(ptr_array.shape[0]):\n            if <uint32*> (ptr_array[kmer]) != NULL:\n                kmers[i] = kmer", "        for kmer in range(ptr_array.shape[0] + 1):\n            if <uint32*> (ptr_array[kmer]) != NULL:\n                kmers[i] = kmer", "R1.index-classified"),
     Mutant("count-validator-removed", KT, "        else:\n            _check_kmer_bounds(kmers, self._kmer_alph)\n\n            kmer_array = kmers.astype(np.int64, copy=False)",
            "        else:\n            kmer_array = kmers.astype(np.int64, copy=False)", "R1.array-validated"),
     Mutant("bucket-count-validator-removed", KT, "        _check_kmer_bounds(kmers, self._kmer_alph)\n        cdef int64[:] kmer_array = kmers.astype(np.int64, copy=False)",
